@@ -39,7 +39,7 @@ def shard(tier, seed, shard, nshards):
     for spec, rnd in gen_cases(tier, seed, shard, nshards):
         cs = C.make_case(spec, rnd, lo=1, hi=5)
         out = C.evaluate(cs)
-        st.account(ID, cs, out, classify)
+        st.account(ID, cs, out, classify, must_compile=True)
     return st.result()
 
 
@@ -47,7 +47,7 @@ def replay(v):
     cs = C.Case.from_json(v["case"])
     out = C.evaluate(cs)
     st = common.Stats()
-    st.account(ID, cs, out, classify)
+    st.account(ID, cs, out, classify, must_compile=True)
     return st.violations
 
 
